@@ -400,6 +400,100 @@ def r_absent(ctx, rid="C09.absent", cfgs=("default",)):
                 if r["verdict"] != r["expected"]:
                     ctx.violation(rid, key, r["file"], r["line"], "%s validator (%s configuration): an absent literal-key member with occurrence %s is %s; "
                                   "RFC 8610 section 3.2: %s" % (which, cfgname, r["occ"], r["verdict"], r["expected"]))
+        # the occurrence in force after the member was skipped: a member without an indicator of its own inherits whatever is left in
+        # state.occurrence, so the configurations must leave the same thing behind
+        base = {r["occ"]: r for r in tables[cfgs[0]]}
+        for cfgname in cfgs:
+            for r in tables[cfgname]:
+                b = base.get(r["occ"])
+                if b is None or r["verdict"].startswith("unknown") or b["verdict"].startswith("unknown"):
+                    continue
+                key = "%s|%s|%s|occurrence-after" % (which, cfgname, r["occ"])
+                if "unknown" in (r.get("occ_after"), b.get("occ_after")):
+                    ctx.incomplete_msg(rid, "%s: the occurrence left in force after the member could not be evaluated" % key)
+                    continue
+                if len(cfgs) == 1:
+                    if r["verdict"] == "skipped" and r["occ_after"] == "kept":
+                        ctx.site(rid, key, r["file"], r["line"], None)
+                        ctx.violation(rid, key, r["file"], r["line"], "%s validator: after an absent member with occurrence %s is skipped its occurrence "
+                                      "indicator stays in state.occurrence; the next member without an indicator of its own inherits it (a required "
+                                      "member is then treated as optional)" % (which, r["occ"]))
+                    continue
+                if cfgname == cfgs[0]:
+                    continue
+                ctx.site(rid, key, r["file"], r["line"], None)
+                if r["occ_after"] != b["occ_after"]:
+                    ctx.violation(rid, key, r["file"], r["line"], "%s validator: after an absent member with occurrence %s, state.occurrence is %s under the "
+                                  "default configuration but %s under %s — the next member without an indicator inherits a different occurrence"
+                                  % (which, r["occ"], b["occ_after"], r["occ_after"], cfgname))
+
+
+def r_typekey_absent(ctx, rid="C09.typekey-absent"):
+    ctx.rule(rid, "JSON visit_identifier as the member key of `tstr => v` on an object with no unclaimed entry, under the default and the "
+                  "ast-span-less configuration: without an occurrence the missing entry is an error; under `?` it is skipped "
+                  "(advance_to_next_entry) and state.occurrence is cleared, so that the next member without an indicator of its own does "
+                  "not inherit the `?`; under *, 0*1, *1, 0* no error is raised (abstract evaluation with scripted classification "
+                  "predicates)", floor=12)
+    f = ctx.facts
+    which = "json"
+    fi = vt.visitor_fn(f, which, "visit_identifier")
+    for cfgname in ("default", "no-ast-span"):
+        for occ in BW_OCCS:
+            oname = vt.occ_name(occ) if occ else "none"
+            if not (occ is None or vt.oracle_allows_absence(occ)):
+                continue
+            key = "%s|%s|%s" % (which, cfgname, oname)
+            m = absint.PyMap()
+            m.is_map = True
+            obj = vt.self_obj(which, ("enum", "Value::Object", [m]))
+            st = obj[2]["state"][2]
+            st.update({"occurrence": vt.occ_val(occ) if occ else ("None",), "is_member_key": True, "is_colon_shortcut_present": False,
+                       "data_location": ("str", ""), "visited_rules": absint.PyMap(), "is_cut_present": False, "advance_to_next_entry": False})
+            obj[2].update({"validating_value": False, "cut_value": ("None",), "object_value": ("None",), "validated_keys": ("None",),
+                           "values_to_validate": ("None",)})
+            scripts = {"in_standard_prelude": lambda run, node, recv: ("Some", ("str", "tstr")), "contains": lambda run, node, recv: False}
+            r = vt.Run(f, which, cfgname, {}, {"self": obj, "ident": ("enum", "Identifier", {"ident": ("str", "tstr"), "socket": ("None",)})}, scripts=scripts)
+            base = r.on_call
+
+            def on_call(kind, name, node, args, recv, base=base):
+                if kind == "fn" and name:
+                    b = name.split("::")[-1]
+                    if b == "is_ident_string_data_type":
+                        return True
+                    if b.startswith("is_ident_") or b.startswith("ident_"):
+                        return ("None",) if b == "ident_numeric_kind" else False
+                    if b == "rule_from_ident":
+                        return ("None",)
+                    if b == "type_choice_types_from_ident":
+                        return absint.MutList()
+                    if b == "lookup_ident":
+                        return ("enum", "Token::TSTR", [])
+                return base(kind, name, node, args, recv)
+            r.it.on_call = on_call
+            try:
+                res = r.run(fi.node)
+            except absint.Unknown as e:
+                ctx.incomplete_msg(rid, "%s: %s" % (key, e))
+                continue
+            nerr = r.errors + len(obj[2]["errors"])
+            after = st.get("occurrence")
+            adv = st.get("advance_to_next_entry")
+            if absint.has_opaque(after) or absint.has_opaque(adv) or absint.has_opaque(res):
+                ctx.incomplete_msg(rid, "%s: the state after the call could not be evaluated" % key)
+                continue
+            ctx.site(rid, key, fi.file, fi.line, {"errors": nerr, "advance": adv is True, "occurrence_after": repr(after)[:40]})
+            if occ is None:
+                if nerr == 0:
+                    ctx.violation(rid, key, fi.file, fi.line, "json visit_identifier (%s): a `tstr => v` member without an occurrence and no entry left to "
+                                  "take raises no error" % cfgname)
+                continue
+            if nerr:
+                ctx.violation(rid, key, fi.file, fi.line, "json visit_identifier (%s): an absent `%s tstr => v` member raises %d error(s); the occurrence "
+                              "allows zero entries" % (cfgname, oname, nerr))
+            elif occ[0] == "Optional" and (adv is not True or after != ("None",)):
+                ctx.violation(rid, key, fi.file, fi.line, "json visit_identifier (%s): after an absent `? tstr => v` member advance_to_next_entry is %r and "
+                              "state.occurrence is %s — the `?` stays in force for the next member, whose missing key is then excused (`? x` and "
+                              "`0*1 x` stop being interchangeable)" % (cfgname, adv, "cleared" if after == ("None",) else "still set"))
 
 
 def run(ctx):
@@ -410,6 +504,7 @@ def run(ctx):
     ctx.guarded("C09.occursites", r_occursites)
     ctx.guarded("C09.bareword", r_bareword)
     ctx.guarded("C09.absent", r_absent)
+    ctx.guarded("C09.typekey-absent", r_typekey_absent)
     ctx.guarded("C09.prelude", r_prelude)
     ctx.guarded("C09.ctrlrestore.json", lambda c: cv.ctrlrestore_rule(c, "C09j", "json"))
     ctx.guarded("C09.ctrlrestore.cbor", lambda c: cv.ctrlrestore_rule(c, "C09c", "cbor"))
